@@ -40,18 +40,24 @@ func RenameBlankIdentifierWith(sig *types.Signature, prefix string) *types.Signa
 
 func hasBlankIdentifier(tup *types.Tuple) bool {
 	for i := 0; i < tup.Len(); i++ {
-		if tup.At(i).Name() == blackIdentifier {
+		if unusable(tup.At(i).Name()) {
 			return true
 		}
 	}
 	return false
 }
 
+// unusable reports whether a parameter cannot be forwarded under its own name:
+// it is blank or unnamed, or it would capture a name the generated wrappers use themselves.
+func unusable(name string) bool {
+	return name == blackIdentifier || name == "" || name == "f" || name == "err"
+}
+
 func rename(tup *types.Tuple, prefix string) *types.Tuple {
 	vars := make([]*types.Var, tup.Len())
 	for i := range vars {
 		varValue := tup.At(i)
-		if varValue.Name() == blackIdentifier || strings.HasPrefix(varValue.Name(), prefix) {
+		if unusable(varValue.Name()) || strings.HasPrefix(varValue.Name(), prefix) {
 			varValue = types.NewVar(varValue.Pos(), varValue.Pkg(), prefix+strconv.Itoa(i), varValue.Type())
 		}
 		vars[i] = varValue
